@@ -69,8 +69,8 @@ class RequestChannelCommon(StreamHandler, Publisher, Subscription, Disposable, m
                 logger().warning('%s: Received request_n but no publisher provided', self.__class__.__name__)
 
         elif isinstance(frame, PayloadFrame):
-            if self.remote_subscriber is None:
-                pass  # no local subscriber was provided for the inbound direction
+            if self.remote_subscriber is None or self._received_complete:
+                pass  # no local subscriber for the inbound direction, or it was already cancelled / terminated
             elif frame.flags_next:
                 self.remote_subscriber.on_next(payload_from_frame(frame),
                                                is_complete=frame.flags_complete)
